@@ -9,3 +9,12 @@ CHECKS["C07"] = dict(
  text="Every built-in linear gate block is symplectic/unitary for ALL real parameters; the documented identities hold; the Gaussian update of (xxpp mean, covariance) by a generic block on every ordered mode tuple equals the congruence by the embedded symplectic (explicit defect term that vanishes for symplectic blocks), for ALL states, ALL hbar>0; displacements shift means by sqrt(2 hbar)(Re a, Im a). Exact for all parameter values at each enumerated shape (d<=3 quick, d<=5 thorough).",
  note="floats treated as reals (constants k*pi/4, sqrt2 recognised by bit pattern); shapes enumerated, not symbolic in d; numpy executes indexing/matmul on object arrays; vf/sympoly.py normal form trusted; 'all sequences' by induction over per-step obligations (not mechanised)",
 )
+ENGINES[0]["serves_properties"] = ["C07", "C14"]
+ENGINES.append({"name": "rtc", "path": "contracts/*_bounded.py", "serves_properties": ["C14"],
+  "kind_free_text": "run-time evaluation of sidecar contracts on the real functions over an enumerated/seeded bounded domain; reported under coverage.bounded, never counted as proved"})
+CHECKS["C14"] = dict(
+ engine="symtrace + rtc", category="proof", design_ref="DESIGN.md 5/C14, 2.3",
+ technique="contract post-conditions as polynomial identities over the real getters/setters (exact normal form); uninterpreted sqrt/det atoms for hbar-independence; bounded run-time contracts for inverse/eigenvalue-based observables",
+ text="For all (m,C,G) under the representation invariant, all hbar>0, all angles, every ordered mode tuple at d<=3 (quick) / d<=4 (thorough): the xpxp/xxpp/complex/ladder representations agree with their definitions, setters and getters are mutually inverse, reduction and rotation commute with them, means scale with sqrt(hbar) and covariances with hbar, and purity / photon number / the arguments handed to the hbar-free click-probability and density-matrix kernels are identical polynomials at hbar and at hbar=1. Fidelity, parity, phase-shifter expectation (matrix inverse / eigenvalues) only by the bounded stand-in.",
+ note="floats as reals; shapes enumerated; displaced branch at a generic point; kernels receiving hbar-free arrays assumed to have no other access to hbar (they take no config); bounded part: 6/40 random states x 4 hbar values, tol 1e-7",
+)
